@@ -38,7 +38,9 @@ add(
     "every axis point and of the tolerance, at the stated axis sizes, each point is assigned to the nearest permitted "
     "aligned point within tolerance or to itself, the aligned axis is the strictly increasing union, and "
     "AlignDatasetError is raised iff two points of one dataset merge; content layer (data/weights/clps placed at the "
-    "assigned aligned point, reported under the original coordinate) on concrete axes with symbolic data.",
+    "assigned aligned point, reported under the original coordinate) on concrete axes with symbolic data: three linked "
+    "datasets with moved points, weights on one dataset only, 3-6 declaration orders x link methods through the real "
+    "Optimizer and create_result_data (C02 stacking and C03 coordinate obligations).",
     COMMON_NOTE + "Axes strictly increasing, tolerance >= 0; ties resolve either way.",
     "3/C09",
 )
@@ -49,7 +51,9 @@ add(
     "does_interval_item_apply decide exact closed-interval membership for all real bounds and indices; "
     "get_axis_slice_from_interval, _get_area and add_model_weight satisfy Inside <= Affected <= Hull(nearest points) "
     "for all strictly increasing axes of the stated sizes and all finite/infinite/reversed bounds, and monotonicity; "
-    "reduce_matrix/retrieve_clps remove, relate and restore exactly the selected columns; dataset+model weight.",
+    "reduce_matrix/retrieve_clps remove, relate and restore exactly the selected columns; dataset+model weight; end to "
+    "end through the real Optimizer with symbolic interval bounds, and several items with different intervals side by "
+    "side (no item acts beyond its own interval).",
     COMMON_NOTE + "Axes strictly increasing; model-weight harness uses concrete axes with symbolic bounds and values.",
     "3/C08",
 )
@@ -60,7 +64,8 @@ add(
     "symbolic data, weights, matrix entries, scales and relation/penalty parameters; every (matrix, data) pair handed to "
     "the linear solver is proved equal, column by column, to an independently written specification of the scaled, "
     "weighted, reduced, stacked problem, and the penalty vector to the residual symbols in order followed by the "
-    "equal-area penalties; every data symbol occurs in exactly one problem; groups share no symbol.",
+    "equal-area penalties; every data symbol occurs in exactly one problem; groups share no symbol; the same at an "
+    "arbitrary optimiser vector through objective_function (all parameters, expression chains included, follow it).",
     COMMON_NOTE + "Coordinates and interval bounds concrete per configuration; the linear solver is a recording "
     "functional stub (optimality is C01).",
     "3/C02",
@@ -72,7 +77,7 @@ add(
     "(residual, weighted_residual = weight x residual, clp by label incl. zero/related clps, matrix by label, "
     "data = fitted + residual, fitted = scale x matrix x clp resp. matrix x clp x global_matrix^T with the solver's "
     "residual identity substituted), for dataset labels that are substrings of each other, (global, model) storage, "
-    "non-square data, single-dataset aligned indices.",
+    "non-square and square data, single-dataset aligned indices, unequal model axes; NaN holes are violations.",
     COMMON_NOTE + "As C02; weights non-zero.",
     "3/C03",
 )
@@ -111,7 +116,8 @@ add(
     "dependency graph over 3 (thorough: 4) parameters in every declaration order, with arithmetic / exp vocabularies and "
     "flat or nested labels, after construction, after each symbolic update via set_from_label_and_value_arrays and after "
     "copy(), every expression parameter's value term equals the topological evaluation of its expression on the current "
-    "plain values, and a second update_parameter_expression() changes no term.",
+    "plain values, and a second update_parameter_expression() changes no term; updating a copy follows the copy and "
+    "leaves the original alone; value coincidences between parameters are explored (forks).",
     COMMON_NOTE + "asteval executed as is (its operators dispatch to the term classes); exp as uninterpreted function.",
     "3/C12",
 )
@@ -124,7 +130,9 @@ add(
     "inside [minimum, maximum] (positive if non-negative); the vector holds exactly the vary/expression-free parameters in "
     "declaration order for every flag arrangement enumerated; through the real Optimizer with the adversarial "
     "least_squares: fixed parameters and expression definitions are kept and all free parameters stay in bounds in "
-    "every history record (read back with set_from_history) and in the result.",
+    "every history record (read back with set_from_history) and in the result; at every model evaluation each "
+    "expression parameter equals its definition on the optimiser's current values; labels, Jacobian columns, covariance "
+    "and standard errors have one length and order also when the optimiser reports active bounds.",
     COMMON_NOTE + "That scipy itself keeps iterates inside the bounds it is given is its contract (assumed: the stub "
     "draws iterates only inside them). Label/Jacobian/covariance ordering is decided in C13.",
     "3/C11",
@@ -137,7 +145,8 @@ add(
     "documented one (InitialParameterError for k=1; success False with the error text and parameters equal, as terms for "
     "all iterates, to a successfully evaluated point and datasets from that same evaluation; original exception object "
     "propagating with raise_exception=True), sys.stdout restored (identity), scheme snapshot unchanged; five kinds of "
-    "invalid scheme are rejected with the documented exception with zero model evaluations and zero linear solves.",
+    "invalid scheme are rejected with the documented exception with zero model evaluations and zero linear solves; the "
+    "class of the injected exception is a finite symbolic choice (5 classes).",
     COMMON_NOTE + "Faults are exceptions raised by the model; non-finite matrices and scipy's own reactions are not modelled.",
     "3/C15",
 )
@@ -210,7 +219,8 @@ add(
     "upper triangular and the data vector fully symbolic, residual = data - A clp entry by entry and A^T residual = 0 "
     "(hence clp minimises the norm), clp has n entries. residual_nnls: the solver gets exactly (matrix, data), clp is its "
     "non-negative solution, residual = data - matrix clp. Dispatch: the named residual function is the one invoked, unknown "
-    "names are rejected before any evaluation.",
+    "names are rejected before any evaluation; the same through EstimationProvider.calculate_residual, and every call "
+    "site (per index, linked, full model) of the real Optimizer goes through the function the group names.",
     COMMON_NOTE + "LAPACK's and scipy-nnls' own numerics (KKT of scipy's solution) are the stubs' contracts; conditioning in "
     "floating point (1e10) is outside.",
     "3/C01",
@@ -222,7 +232,9 @@ add(
     "symbolic matrices, then the real fitting pipeline is evaluated on those symbolic data: for every linear problem handed "
     "to the solver, data = fit matrix x (generating clp / dataset scale) entry by entry (the data lie in the column space with "
     "exactly the generating coefficients), covering megacomplex scales, shared labels, index dependence, full models and "
-    "linked datasets; with C01 this gives zero objective and recovered clps at the generating parameters.",
+    "linked datasets; with C01 this gives zero objective and recovered clps at the generating parameters; the clp "
+    "reported under a label (pair) is the estimate of that column; away from the generating values the fit's matrices "
+    "are the model at the optimiser's vector.",
     COMMON_NOTE + "NOT decided: return to the optimum from perturbed start values (convergence of an iterative float "
     "optimiser) and reproducibility of the noise seed (compiled RNG); builtin kinetic matrices are the subject of C04/C05.",
     "3/C14",
@@ -236,7 +248,9 @@ add(
     "time points more than 5 sigma before the effective IRF position centre - shift_i (the decay model's position), for "
     "all parameters; coherent artifact columns = Gaussian and its first / second derivative forms at centre - shift_i with "
     "own-or-IRF width; Gaussian shape amplitude / half maximum / symmetry / formula; skewed Gaussian formula, theta <= 0 "
-    "mask, |b| <= 1e-8 dispatch; inverted / scaled spectral axes.",
+    "mask, |b| <= 1e-8 dispatch; inverted / scaled spectral axes; the Gaussian-IRF damped oscillation in all regions "
+    "(complex error function as a pair of uninterpreted functions): columns = Re / Im of the closed form, both rate "
+    "signs, 1-2 Gaussians, per-index shift; coherent artifact with dispersed centre and width.",
     COMMON_NOTE + "NOT decided: oscillation / PFID columns inside the pulse region (complex error function), 'proportional to "
     "the convolution' as an analytic fact, continuity as skewness -> 0, floating point ranges.",
     "3/C07",
@@ -249,7 +263,8 @@ add(
     "contributions) through the real calculate_dataset_matrix / combine_megacomplex_matrices on symbolic matrices - the "
     "column of a label is the sum of the scaled contributions under that label; all orders of 2-3 damped oscillations "
     "(columns belong to their own frequency / rate); all orders of the spectral shape dict; baseline label. Compartment / "
-    "K-matrix orders are enumerated in C04, dataset order and linked stacking in C02/C03.",
+    "K-matrix orders by C04's certificate per declaration order; linked datasets (index dependent + independent) in "
+    "every declaration order through the real Optimizer.",
     COMMON_NOTE + "'leaves the fit unchanged' is derived (equal labelled matrices + C02), pfid / clp-guide not covered.",
     "3/C06",
 )
